@@ -79,6 +79,17 @@ var (
 	envDevMax  int
 )
 
+// exploreEnv runs body under every combination of at most `bound` per-Read deviations (1 byte, empty read, half,
+// everything-with-the-error) on the first 24 reads of every EnvReader the body creates (E1).
+func exploreEnv(c *mc.Ctx, bound int, body func()) (executions int64, complete bool) {
+	st := mc.Explore(bound, 0, c.Expired, func(ch *mc.Chooser) {
+		envChooser, envDevMax = ch, 24
+		body()
+		envChooser, envDevMax = nil, 0
+	})
+	return st.Executions, !st.Capped
+}
+
 func NewEnvReader(d []byte, cfg EnvCfg) *EnvReader {
 	return &EnvReader{Cfg: cfg, D: d, Ch: envChooser, DevMax: envDevMax}
 }
